@@ -1033,14 +1033,26 @@ func predicateEdges(f *ssa.Function, pass []Lit) (cut map[Edge]bool, perLit []in
 		// the condition: a boolean helper call, or helper(...) ==/!= constant
 		cond, neg := StripNot(iff.Cond)
 		var cl *ssa.Call
+		ridx := 0
 		var konst *ssa.Const // nil: boolean call, compared with true
-		if c, ok := Strip(cond).(*ssa.Call); ok {
-			cl = c
+		asCall := func(v ssa.Value) (*ssa.Call, int, bool) {
+			switch y := Strip(v).(type) {
+			case *ssa.Call:
+				return y, 0, y.Call.Signature().Results().Len() == 1
+			case *ssa.Extract:
+				if c, ok := y.Tuple.(*ssa.Call); ok {
+					return c, y.Index, true // one component of (value, ok)
+				}
+			}
+			return nil, 0, false
+		}
+		if c, i, ok := asCall(cond); ok {
+			cl, ridx = c, i
 		} else if op, x, y, okC := Cmp(cond); okC && (op == token.EQL || op == token.NEQ) {
-			c, ok1 := Strip(x).(*ssa.Call)
+			c, i, ok1 := asCall(x)
 			k, ok2 := Strip(y).(*ssa.Const)
 			if ok1 && ok2 {
-				cl, konst = c, k
+				cl, ridx, konst = c, i, k
 				neg = op == token.NEQ // Cmp already folded the negations into op
 			}
 		}
@@ -1048,10 +1060,10 @@ func predicateEdges(f *ssa.Function, pass []Lit) (cut map[Edge]bool, perLit []in
 			continue
 		}
 		h := cl.Call.StaticCallee()
-		if h == nil || h.Blocks == nil || !helperOK(h) || h == f || h.Signature.Results().Len() != 1 {
+		if h == nil || h.Blocks == nil || !helperOK(h) || h == f || ridx >= h.Signature.Results().Len() {
 			continue
 		}
-		if _, ok := h.Signature.Results().At(0).Type().Underlying().(*types.Basic); !ok {
+		if _, ok := h.Signature.Results().At(ridx).Type().Underlying().(*types.Basic); !ok {
 			continue
 		}
 		// does a returned constant equal the reference (true / K)?
@@ -1079,20 +1091,6 @@ func predicateEdges(f *ssa.Function, pass []Lit) (cut map[Edge]bool, perLit []in
 			return true, constant.Compare(c.Value, token.EQL, konst.Value)
 		}
 		for _, want := range []bool{true, false} {
-			var rets []ssa.Instruction
-			Instrs(h, func(in ssa.Instruction) {
-				r, ok := in.(*ssa.Return)
-				if !ok || len(r.Results) != 1 || in.Block() == h.Recover {
-					return
-				}
-				if isC, eq := matches(r.Results[0]); isC && eq != want {
-					return
-				}
-				rets = append(rets, r)
-			})
-			if len(rets) == 0 {
-				continue
-			}
 			var bound []*ssa.Parameter
 			for i, p := range h.Params {
 				if i < len(cl.Call.Args) {
@@ -1102,12 +1100,57 @@ func predicateEdges(f *ssa.Function, pass []Lit) (cut map[Edge]bool, perLit []in
 					}
 				}
 			}
-			r2 := Gate(h, rets, pass...)
+			var rets []ssa.Instruction
+			exprLits := make([]int, len(pass))
+			nExpr := 0
+			Instrs(h, func(in ssa.Instruction) {
+				r, ok := in.(*ssa.Return)
+				if !ok || ridx >= len(r.Results) || in.Block() == h.Recover {
+					return
+				}
+				e := r.Results[ridx]
+				if isC, eq := matches(e); isC && eq != want {
+					return
+				}
+				// a boolean expression returned as it is (`return id, table.Get(id) != nil`):
+				// the outcome asserts that expression
+				if konst == nil {
+					if _, isC := ConstBool(e); !isC {
+						ec, eneg := StripNot(e)
+						for li, l := range pass {
+							onT, onF := l.A.Match(ec)
+							if eneg {
+								onT, onF = onF, onT
+							}
+							w := onT
+							if !want {
+								w = onF
+							}
+							if w != 0 && (w > 0) == l.Want {
+								exprLits[li]++
+								nExpr++
+								return // this return is covered by the literal
+							}
+						}
+					}
+				}
+				rets = append(rets, r)
+			})
+			r2 := GateResult{OK: true, PerLit: make([]int, len(pass))}
+			if len(rets) > 0 {
+				r2 = Gate(h, rets, pass...)
+			}
 			for _, p := range bound {
 				delete(paramBind, p)
 			}
-			if !r2.OK || r2.PassEdges == 0 {
+			if len(rets) == 0 && nExpr == 0 {
 				continue
+			}
+			if !r2.OK || (r2.PassEdges == 0 && nExpr == 0) {
+				continue
+			}
+			for li := range exprLits {
+				r2.PerLit[li] += exprLits[li]
 			}
 			// the edge taken when (result == reference) == want
 			idx := 0
